@@ -80,6 +80,7 @@ type vsNode struct {
 	Unavail bool     `json:"unavail"`
 	Excl    bool     `json:"excl"`
 	Labels  [][2]int `json:"labels"`
+	LblVal  int      `json:"lblval,omitempty"` // selects the value of the exclude label
 }
 type vsEv struct {
 	Op       string  `json:"op"` // svc del cfg node spk resync
@@ -198,7 +199,7 @@ func vsGenSvc(r *rand.Rand) *vsSvc {
 }
 
 func vsGenNode(r *rand.Rand, idx int) *vsNode {
-	return &vsNode{Idx: idx, Unavail: r.Intn(5) == 0, Excl: r.Intn(6) == 0, Labels: vbGenLabels(r)}
+	return &vsNode{Idx: idx, Unavail: r.Intn(5) == 0, Excl: r.Intn(6) == 0, Labels: vbGenLabels(r), LblVal: r.Intn(4)}
 }
 
 func vsGenSpk(r *rand.Rand) (bool, []int) {
@@ -228,9 +229,41 @@ func vsGenHist(r *rand.Rand) vsHist {
 		h.Evs = append(h.Evs, vsEv{Op: "cfg", Cfg: vsGenCfg(r)})
 	}
 	var last [4]*vsSvc
+	var lastPeers []vbPeer
+	for _, e := range h.Evs {
+		if e.Op == "cfg" {
+			lastPeers = e.Cfg.Peers
+		}
+	}
+	// a Node update of this node that changes labels only: towards (or away from) a selector of a configured peer
+	labelOnly := func() (vsEv, bool) {
+		if lastNode[0] == nil {
+			return vsEv{}, false
+		}
+		c := *lastNode[0]
+		c.Labels = vbGenLabels(r)
+		var sels [][][2]int
+		for _, p := range lastPeers {
+			sels = append(sels, p.Sels...)
+		}
+		if len(sels) > 0 && r.Intn(4) != 0 {
+			sel := sels[r.Intn(len(sels))]
+			c.Labels = append([][2]int{}, sel...)
+			if r.Intn(3) == 0 && len(c.Labels) > 0 { // stop matching
+				c.Labels[0][1] = 1 - c.Labels[0][1]
+			}
+			sort.Slice(c.Labels, func(i, j int) bool { return c.Labels[i][0] < c.Labels[j][0] })
+		}
+		lastNode[0] = &c
+		return vsEv{Op: "node", Node: &c}, true
+	}
 	for n := 5 + r.Intn(21); n > 0; n-- {
 		x := r.Intn(100)
 		switch {
+		case x >= 96 && x < 98 || x >= 84 && x < 88:
+			if e, ok := labelOnly(); ok {
+				h.Evs = append(h.Evs, e)
+			}
 		case x < 50:
 			k := r.Intn(4)
 			var s *vsSvc
@@ -263,7 +296,9 @@ func vsGenHist(r *rand.Rand) vsHist {
 			last[k] = nil
 			h.Evs = append(h.Evs, vsEv{Op: "del", Name: k})
 		case x < 72:
-			h.Evs = append(h.Evs, vsEv{Op: "cfg", Cfg: vsGenCfg(r)})
+			c := vsGenCfg(r)
+			lastPeers = c.Peers
+			h.Evs = append(h.Evs, vsEv{Op: "cfg", Cfg: c})
 		case x < 88:
 			idx := r.Intn(3)
 			if r.Intn(2) == 0 {
@@ -286,6 +321,14 @@ func vsGenHist(r *rand.Rand) vsHist {
 			h.Evs = append(h.Evs, vsEv{Op: "spk", Disabled: d, Speakers: l})
 		default:
 			h.Evs = append(h.Evs, vsEv{Op: "resync"})
+		}
+	}
+	// one history in three ends right after label-only updates of this node (nothing repairs the state afterwards)
+	if r.Intn(3) == 0 {
+		for k := 1 + r.Intn(2); k > 0; k-- {
+			if e, ok := labelOnly(); ok {
+				h.Evs = append(h.Evs, e)
+			}
 		}
 	}
 	return h
@@ -336,8 +379,8 @@ func vsBuildSvc(name int, s *vsSvc) *v1.Service {
 
 func vsBuildNode(n *vsNode) *v1.Node {
 	o := &v1.Node{ObjectMeta: metav1.ObjectMeta{Name: vbNodeNames[n.Idx], Labels: vbLabelSet(n.Labels)}}
-	if n.Excl {
-		o.Labels[v1.LabelNodeExcludeBalancers] = ""
+	if n.Excl { // the key's presence excludes the node, whatever the value
+		o.Labels[v1.LabelNodeExcludeBalancers] = []string{"", "true", "false", "0"}[(n.Idx+len(n.Labels)+n.LblVal)%4]
 	}
 	if n.Unavail {
 		o.Status.Conditions = []v1.NodeCondition{{Type: v1.NodeNetworkUnavailable, Status: v1.ConditionTrue}}
@@ -905,7 +948,7 @@ func TestVerifSpk(t *testing.T) {
 	vsRunHistory(out, id, "corpus-f9", f9, r)
 	// the first event of a node requests no re-sync: this node turns out to be network-unavailable
 	// after its services were announced (a nil node counts as available)
-	f19 := vsHist{Speakers: []int{0}, Evs: []vsEv{
+	f25 := vsHist{Speakers: []int{0}, Evs: []vsEv{
 		{Op: "cfg", Cfg: &vsCfg{Pools: []vsPool{{CIDRs: []string{"10.20.30.0/24"}, L2: all,
 			BGP: []vbBAdv{{Agg4: 32, Agg6: 128, Nodes: []int{0}}}}}, Peers: []vbPeer{{Name: 0, Sels: [][][2]int{}}}}},
 		{Op: "svc", Name: 0, Svc: &vsSvc{LB: true, IPs: []string{"10.20.30.1"}, Eps: eps}},
@@ -913,7 +956,21 @@ func TestVerifSpk(t *testing.T) {
 		{Op: "svc", Name: 1, Svc: &vsSvc{LB: true, IPs: []string{"10.20.30.2"}, Eps: eps}},
 	}}
 	id++
-	vsRunHistory(out, id, "corpus-first-node-event", f19, r)
+	vsRunHistory(out, id, "corpus-first-node-event", f25, r)
+	// a peer whose node selector starts (then stops) matching through label-only Node updates after the
+	// service was announced over BGP: the session is created from SetNode, which requests no re-sync
+	bgpAdv := []vbBAdv{{Agg4: 32, Agg6: 128, Nodes: []int{0}}}
+	selPeer := vsHist{Speakers: []int{0}, Evs: []vsEv{
+		{Op: "node", Node: &vsNode{Idx: 0, Labels: [][2]int{{0, 0}}}},
+		{Op: "cfg", Cfg: &vsCfg{Pools: []vsPool{{CIDRs: []string{"10.20.30.0/24"}, BGP: bgpAdv}},
+			Peers: []vbPeer{{Name: 0, Sels: [][][2]int{}}, {Name: 1, Sels: [][][2]int{{{0, 1}}}}}}},
+		{Op: "svc", Name: 0, Svc: &vsSvc{LB: true, IPs: []string{"10.20.30.1"}, Eps: eps}},
+		{Op: "node", Node: &vsNode{Idx: 0, Labels: [][2]int{{0, 1}}}},
+		{Op: "node", Node: &vsNode{Idx: 0, Labels: [][2]int{{0, 0}}}},
+		{Op: "node", Node: &vsNode{Idx: 0, Labels: [][2]int{{0, 1}, {1, 0}}}},
+	}}
+	id++
+	vsRunHistory(out, id, "corpus-selector-starts-matching", selPeer, r)
 	// a configuration that orphans an announced address is refused, then the address changes and it is accepted
 	refuse := vsHist{Speakers: []int{0}, Evs: []vsEv{
 		{Op: "node", Node: &vsNode{Idx: 0}},
